@@ -179,12 +179,17 @@ class OpaqueFilter:
     """butter(...) result: remembers its configuration; sosfiltfilt applies an uninterpreted
     per-sample operator B_cfg,n,j(x_0..x_{n-1}) (one z3 function per output sample)."""
 
-    def __init__(self, order, wn, btype, fs):
+    def __init__(self, order, wn, btype, fs, form="sos"):
         self.cfg = (order, repr(wn), btype, repr(fs))
+        self.form = form
+
+    def __iter__(self):
+        # butter(..., output="ba") is unpacked into (b, a): both halves stand for the same design
+        return iter((self, self))
 
 
 def opaque_butter(order, wn, btype="low", analog=False, output="ba", fs=None):
-    return OpaqueFilter(order, wn, btype, fs)
+    return OpaqueFilter(order, wn, btype, fs, form=output)
 
 
 _FILTER_IDS = {}
@@ -195,11 +200,14 @@ def opaque_sosfiltfilt(sos, x, axis=-1, padtype="odd", padlen=None):
     if x.dtype != object:
         x = x.astype(object)
     n = len(x)
-    fid = _FILTER_IDS.setdefault(sos.cfg, len(_FILTER_IDS))
+    form = getattr(sos, "form", "sos")
+    fid = _FILTER_IDS.setdefault((sos.cfg, form), len(_FILTER_IDS))
     out = np.empty(n, dtype=object)
     args = [Sym.lift(v) for v in x]
     for j in range(n):
-        f = z3.Function(f"B{fid}_{n}_{j}", *([z3.RealSort()] * (n + 1)))
+        # the zero-phase second-order-section cascade is one operator family; any other realisation of the filter (transfer
+        # function form, one-pass filtering) is a different, equally opaque, family: terms differ and the replay decides
+        f = z3.Function(f"B{'' if form == 'sos' else form}{fid}_{n}_{j}", *([z3.RealSort()] * (n + 1)))
         out[j] = Sym(f(*args))
     Ctx.cur.notes.setdefault("filters", []).append((sos.cfg, n))
     return out
@@ -217,6 +225,9 @@ def make_signal_modules(find_peaks=find_peaks_model, tukey=sym_tukey, detrend=sy
     ss.detrend = detrend
     ss.butter = butter
     ss.sosfiltfilt = sosfiltfilt
+    ss.filtfilt = lambda b, a, x, *k, **kw: sosfiltfilt(OpaqueFilter(*[eval(v) if i in (1, 3) else v for i, v in enumerate(b.cfg)], form="ba-filtfilt") if isinstance(b, OpaqueFilter) else b, x)
+    ss.sosfilt = lambda sos, x, *k, **kw: sosfiltfilt(OpaqueFilter(*[eval(v) if i in (1, 3) else v for i, v in enumerate(sos.cfg)], form="one-pass"), x)
+    ss.lfilter = lambda b, a, x, *k, **kw: sosfiltfilt(OpaqueFilter(*[eval(v) if i in (1, 3) else v for i, v in enumerate(b.cfg)], form="one-pass-ba"), x)
     ssw = types.ModuleType("scipy.signal.windows")
     ssw.tukey = tukey
     ss.windows = ssw
